@@ -9,6 +9,7 @@ package main
 import (
 	"fmt"
 	"net"
+	"strings"
 	"time"
 
 	"github.com/iDigitalFlame/xmt/c2"
@@ -90,4 +91,28 @@ func runC17SessionProbe(c *Ctx) {
 		c.Extra["session-probe:"+x.name] = r
 		c.Count("session-probe:" + x.name + "=" + r)
 	}
+}
+
+// runC17Consumer: the consumer of the selector contract, `(*Session).listen` (c2/session.go): before
+// every connection attempt it calls `p.Switch(e)` and `e` must say whether the PREVIOUS attempt failed
+// (connect error or failed exchange) - "last-valid changes only after a reported failure" is only as
+// good as that report. The real listen() runs on the virtual clock and scripted Connector of the C19
+// harness (no kill date, no work hours, jitter off), the arguments of Switch are compared with the
+// client-loop model (op `loop`, XMT/ClientLoop.lean, field `sw`) and checked directly.
+func runC17Consumer(c *Ctx) {
+	c.Cases("consumer", c.N(400, 6000), func(r *Rng, i int) {
+		l := &c19LoopCase{sleep: int64(time.Millisecond) * int64(1+r.Intn(5000)), now: 1709500000000000000 + int64(r.Intn(1000000))*1000000}
+		n := 1 + r.Intn(12)
+		b := make([]byte, n)
+		for k := range b {
+			b[k] = "oooeeff"[r.Intn(7)]
+		}
+		if i < 27 { // every script of length 3 over {o, e, f}
+			b = []byte{"oef"[i%3], "oef"[i/3%3], "oef"[i/9%3]}
+		}
+		l.script = string(b)
+		c19Loop(c, l)
+		c19Uninstall() // the virtual clock and the scripted PRNG must not leak into the other groups
+		c.Eval(strings.ContainsAny(l.script, "ef") && strings.Contains(l.script, "o"), "consumer:"+l.script)
+	})
 }
